@@ -10,6 +10,7 @@ package constant
 //@
 //@ func CalculateConstantRate
 //@   props C14
-//@   requires jitterArg == 0.0 || (jitterConsts(jitterArg) && GJin == GJout)
+//@   requires GJclaim == 1 ==> (jitterArg == 0.0 || (jitterConsts(jitterArg) && GJin == GJout))
+//@   modifies nothing
 //@   ensures [runnable] result.1 == nil ==> result.0 != nil && result.0.Rate != nil && result.0.IterationDuration > 0
 //@   ensures [rejected] result.1 != nil ==> result.0 == nil
